@@ -1404,6 +1404,11 @@ def _opt_job(job):
             got = it.iterate(it.getattr(s_, "assertions"))
             if [id(g) for g in got] != [id(g) for g in asserts]:
                 return "%s leaves the assertion stack changed: %s" % (label, _names(w, got))
+            # the back-end's own stack: the levels opened for the search are closed again (a pop still pending
+            # by design of the solver's lazy pop counts as closed)
+            frames = len(s_.attrs.get("native", [[]])) - (1 if s_.attrs.get("pending_pop") is True else 0)
+            if frames != 1:
+                return "%s returns with %d level(s) still open on the solver's assertion stack" % (label, frames - 1)
             return None
         sat_all = satisfying(asserts)
         if scen == "bool-soft":
